@@ -1141,7 +1141,8 @@ theorem irSave_load_ok (thr : Nat) (sig : List (String × Bool)) (tnames : List 
 /-- **The whole save, fault-free, then `load`.** -/
 theorem save_load_ok (cfg : Cfg) (sig : List (String × Bool)) (tnames : List String) (dir name : String) (verbose : Bool)
     (s : St) (bs : List Bytes) (hk : s.k = none) (hsig : sig.length = s.cv.length)
-    (hinit : All2 (InitOK (joinPath dir (name ++ ".data")) s.fs s.heap) s.cv bs) :
+    (hinit : All2 (InitOK (joinPath dir (name ++ ".data")) s.fs s.heap) s.cv bs)
+    (hmpf : cfg.refuseModel = false ∨ destHits (joinPath dir name) s.heap s.cv = []) :
     ∃ s', save cfg sig tnames dir name verbose s = (.ok (), s') ∧
       ∀ fs', FS.get? fs' (joinPath dir name) = FS.get? s'.fs (joinPath dir name) →
         FS.get? fs' (joinPath dir (name ++ ".data")) = FS.get? s'.fs (joinPath dir (name ++ ".data")) →
@@ -1151,9 +1152,13 @@ theorem save_load_ok (cfg : Cfg) (sig : List (String × Bool)) (tnames : List St
     obtain ⟨b, id, t, rfl, _, _⟩ := all2_mem_left hinit c hc
     simp
   obtain ⟨s', h1, h2⟩ := irSave_load_ok cfg.thr sig tnames dir name verbose s bs hk hsig hinit
+  have hm : (cfg.refuseModel && !(destHits (joinPath dir name) s.heap s.cv).isEmpty) = false := by
+    rcases hmpf with h | h
+    · simp [h]
+    · simp [h]
   unfold save
   simp only [bind_apply, get_apply, guardHits_nil cfg.deep sig s.cv hnone, destHits_nil _ _ _ hinit, List.isEmpty_nil,
-    Bool.not_true, Bool.false_eq_true, Bool.and_false, if_false]
+    Bool.not_true, Bool.false_eq_true, Bool.and_false, hm, Bool.or_false, if_false]
   by_cases hkn : cfg.keepNames = true
   · simp only [hkn, if_true, tryFinally, h1]
     exact ⟨_, rfl, h2⟩
